@@ -16,9 +16,12 @@ PREFIXES = {  # for capacity 4 (a=2, b=2, c=3)
 }
 
 
+BIG = {"a": 5000, "b": 4096, "c": 7000}  # sizes above / at / not a multiple of the 4096-byte page-in chunk
+
+
 def space(ctx):
-    # (capacity, depth bound)
-    return ctx.pick([(4, 8), (5, 7)], [(4, 13), (5, 12)])
+    # (capacity, depth bound, sizes)
+    return ctx.pick([(4, 8, SIZES), (5, 7, SIZES), (10000, 6, BIG)], [(4, 13, SIZES), (5, 12, SIZES), (10000, 10, BIG)])
 
 
 def explore(ctx, prop: str, with_liveness: bool):
@@ -27,8 +30,8 @@ def explore(ctx, prop: str, with_liveness: bool):
     depths, closed_all, samples = [], True, []
     t_budget = ctx.pick(1200, 2400)
     histories_for_conformance: list = []
-    for (cap, depth) in space(ctx):
-        cfg = {"capacity": cap, "sizes": SIZES, "age": with_liveness}  # C09 also lets readers grow older than the staleness window
+    for (cap, depth, sizes) in space(ctx):
+        cfg = {"capacity": cap, "sizes": sizes, "age": with_liveness}  # C09 also lets readers grow older than the staleness window
 
         def expand(hist, cfg=cfg):
             w = shmworld.build(cfg, hist)
@@ -45,7 +48,7 @@ def explore(ctx, prop: str, with_liveness: bool):
         r = _bfs(expand, shmworld.build(cfg, []).canon(), depth, time.time() + t_budget / len(space(ctx)))
         # start from non-initial states too: scripted prefixes that reach states beyond the depth bound (datasets that
         # went to disk and came back, were purged, leaving files behind), then the same exhaustive exploration from there
-        for pname, prefix in (PREFIXES.items() if cap == 4 else ()):
+        for pname, prefix in (PREFIXES.items() if cap in (4, 10000) else ()):
             try:
                 w0 = shmworld.build(cfg, prefix)
             except Exception as e:
